@@ -1705,18 +1705,22 @@ Proof.
 Qed.
 
 (* ---- hand-written class hierarchies --------------------------------------------------------- *)
-(* a derived class that declares its labels, or whose base neither declares labels nor was
-   previewed first, is wrapped exactly as its own definition: every theorem about function
-   classes applies to it as it stands *)
+(* a derived class that declares its labels, or whose base declares none, is wrapped exactly as
+   its own definition -- whichever of the two classes was used first: every theorem about
+   function classes applies to it as it stands *)
 Theorem derive_own bf b d :
-  f_declared d <> None \/ (f_declared b = None /\ bf = false) -> derive bf b d = d.
+  f_declared d <> None \/ f_declared b = None -> derive bf b d = d.
 Proof.
-  destruct d as [ps body ret dec v]. unfold derive, inherited_labels. simpl. intros [H|[H1 H2]].
+  destruct d as [ps body ret dec v]. unfold derive, inherited_labels. simpl. intros [H|H].
   - destruct dec; [reflexivity | contradiction].
-  - rewrite H1, H2. destruct dec; reflexivity.
+  - rewrite H. destruct dec; reflexivity.
 Qed.
 
 (* declared labels are a class attribute: a derived class without its own inherits its base's *)
 Theorem derive_inherits_declared bf b d l :
   f_declared d = None -> f_declared b = Some l -> f_declared (derive bf b d) = Some l.
 Proof. intros Hd Hb. unfold derive, inherited_labels. simpl. rewrite Hd, Hb. reflexivity. Qed.
+
+(* the order in which base and derived class are used does not matter *)
+Theorem derive_order_irrelevant b d : derive true b d = derive false b d.
+Proof. reflexivity. Qed.
